@@ -349,7 +349,8 @@ def get_switched_peak_array_indices(values, tol=0.0):
         peak_values_set.append(peak_values[i])
         peak_indices_set.append(i)
 
-    switched_peak_indices = np.take(peak_indices, new_peak_indices)
+    # a constant series is reported by the peak finder as [0, 0] (its first and its last sample): each index is reported once
+    switched_peak_indices = np.unique(np.take(peak_indices, new_peak_indices))
     return switched_peak_indices
 
 
